@@ -1,6 +1,7 @@
 """C10 - the MATLAB toolbox contains exactly the declared classes, functions, enums (Engines E, F)."""
 from .. import rules_flow as RF
 from .. import rules_matlab as RM
+from .. import rules_pybind as RP
 
 ID = "C10"
 EXPLANATION = (
@@ -30,4 +31,7 @@ def run(ctx, rep):
     rep.run(RF.rule_item_state_defined_before_use, ctx, rep, "T7", packages=("gtwrap/matlab_wrapper",), min_classes=3)
     rep.run(RF.rule_memo_key_complete, ctx, rep, "T8", packages=("gtwrap/matlab_wrapper",), min_functions=50)
     rep.run(RM.rule_one_scope_for_class_names, ctx, rep, "T9")
+    # T10: every placeholder of every template the MATLAB generator fills has a value at that call (KeyError otherwise,
+    # on the first input that reaches the template - the fixtures do not reach all of them)
+    rep.run(RP.rule_slot_completeness, ctx, rep, "T10", cls="MatlabWrapper", min_sites=60, unused_ok=True)
     rep.run(RF.rule_locals_defined, ctx, rep, "U1", packages=("gtwrap/matlab_wrapper",), min_functions=3)
